@@ -243,6 +243,8 @@ class Conn(object):
         self.delivered_msgs = 0          # non-disconnect events that reached the server
         self.msgs_before_disc = None
         self.disc_code = None
+        self.failed_sends = 0
+        self.arrived = []                # every event that reached the server, in order
         self.fail_send_at = ()           # send indices at which the connection drops
         self.hold = False                # harness may hold back deliveries
         self.recv_after_disconnect = 0
@@ -303,6 +305,7 @@ class Conn(object):
                 self.dropped.append(event)
                 return
             self.send_failed = True
+            self.failed_sends += 1
             if self.lost_mode == 'wsexc':
                 raise Exception('sent 1000 (OK); then received 1000 (OK): code = 1000 (OK), no reason')
             raise LostConnection('connection lost')
@@ -329,6 +332,7 @@ class Conn(object):
                 self.script.clear()
                 self.msgs_before_disc = self.delivered_msgs
                 self.disc_code = ev.get('code')
+                self.arrived.append(ev)
                 self.queue.append(ev)
                 self._try_resolve()
 
@@ -345,6 +349,7 @@ class Conn(object):
                 self.disc_code = ev.get('code', 1000 if self.kind == 'websocket' else None)
         elif ev['type'] in ('websocket.receive', 'http.request'):
             self.delivered_msgs += 1
+        self.arrived.append(ev)
         self.queue.append(ev)
         if not self.recv_suspends:
             self._try_resolve()
